@@ -69,6 +69,8 @@ theorem step_query {b : Buf} {c : Bytes} (h : View b c) (op : Op) (hq : mutate c
   | setChar _ _ => simp [mutate] at hq
   | insert _ _ => simp [mutate] at hq
   | insertCstr _ _ => simp [mutate] at hq
+  | insertSelf _ => simp [mutate] at hq
+  | appendSelf => simp [mutate] at hq
   | append _ => simp [mutate] at hq
   | appendData _ => simp [mutate] at hq
   | appendCstr _ => simp [mutate] at hq
@@ -104,6 +106,16 @@ theorem step_mutate {b : Buf} {c : Bytes} (h : Rep b c) (op : Op) (xs : Bytes) (
     obtain ⟨b', hb, hr⟩ := insertCstr_spec h s pos
     simp only [mutate, Option.some.injEq] at hm
     rw [hm] at hb hr
+    exact ⟨b', by simp only [step, liftB, hb], hr⟩
+  | insertSelf pos =>
+    obtain ⟨b', hb, hr⟩ := insertSelf_spec h pos
+    simp only [mutate, Option.some.injEq] at hm
+    rw [hm] at hb hr
+    exact ⟨b', by simp only [step, liftB, hb], hr⟩
+  | appendSelf =>
+    obtain ⟨b', hb, hr⟩ := appendSelf_spec h
+    simp only [mutate, Option.some.injEq, Prod.mk.injEq] at hm
+    rw [← hm.1, ← hm.2]
     exact ⟨b', by simp only [step, liftB, hb], hr⟩
   | append a =>
     obtain ⟨s, hs, b', hb, hr⟩ := append_spec h a
@@ -197,6 +209,8 @@ theorem step_static_mutate {b : Buf} (hs : b.isStatic = true) (c : Bytes) (op : 
   | insert a pos =>
     rcases ofArg_spec a with ⟨_, ho⟩ | ⟨s, _, _, ho, _, _⟩ <;> simp [step, ho, liftB, insert_static hs]
   | insertCstr s pos => simp [step, liftB, insertCstr_static hs]
+  | insertSelf pos => simp [step, liftB, insertSelf_static hs]
+  | appendSelf => simp [step, liftB, appendSelf_static hs]
   | append a =>
     rcases ofArg_spec a with ⟨_, ho⟩ | ⟨s, _, _, ho, _, _⟩ <;> simp [step, ho, liftB, append_static hs]
   | appendData d => simp [step, liftB, appendData_static hs]
